@@ -5,6 +5,8 @@ import SymfcModel.Model.Inst
 import SymfcModel.Lemmas.LinAlg
 import SymfcModel.Lemmas.SumRule
 import SymfcModel.Lemmas.TensorSym
+import SymfcModel.Lemmas.O1
+import SymfcModel.Gen.O1
 namespace Symfc.C03
 open Symfc
 
@@ -116,5 +118,36 @@ theorem unit_eigenspace_is_the_sum_rule_kernel [DecidableEq k] (C : Matrix m k K
   LinAlg.sumrule_unit_iff C T ν hν v
 
 end L4
+
+section FirstOrder
+open Matrix
+
+/-- C03 for the exported FIRST-ORDER basis, tie to the code (extracted): the sum-rule matrix of `matrix_tools_O1` has the
+    single entry `1/√N` at `(3 i + a, a)` per row, the matrix handed to the eigen-solver is `1 − (TC)ᵀ(TC)`, and
+    `FCBasisSetO1.run` is the pipeline `c_trans · eigsh(coset) · eigsh(sum rule)`. -/
+theorem first_order_code_shape : Gen.o1SumRuleTiledIdentity = true ∧ Gen.o1PipelineShape = true := by decide
+
+/-- … the kernel of that matrix is exactly the acoustic sum rule `Σ_i Φ[i a] = 0` for every Cartesian component -/
+theorem first_order_sum_rule_rows {K : Type*} [Field K] (N : Nat) (w : K) (hw : w ≠ 0) (x : Fin N × Fin 3 → K) :
+    (O1.sumRuleO1 N w) *ᵥ x = 0 ↔ ∀ a : Fin 3, ∑ i : Fin N, x (i, a) = 0 :=
+  O1.sumRuleO1_kernel N w hw x
+
+/-- … so (eigen contract assumed) the exported first-order basis `c_trans · W₂ · W₃` spans EXACTLY the first-order
+    tensors that are translation invariant (range of `c_trans`), invariant under the space group (`P x = x`) and obey
+    the sum rule in every Cartesian component. -/
+theorem first_order_basis_spans_exactly_the_admissible_space {K : Type*} [Field K] [LinearOrder K]
+    [IsStrictOrderedRing K] {N : Nat} {k₁ k₂ k₃ : Type*} [Fintype k₁] [Fintype k₂] [Fintype k₃]
+    [DecidableEq k₁] [DecidableEq k₂] [DecidableEq k₃]
+    (A : Matrix (Fin N × Fin 3) k₁ K) (P : Matrix (Fin N × Fin 3) (Fin N × Fin 3) K) (w : K) (hw : w ≠ 0)
+    (W₂ : Matrix k₁ k₂ K) (W₃ : Matrix k₂ k₃ K)
+    (hA : Aᵀ * A = 1) (h₂ : Pipeline.EigBasis (Aᵀ * P * A) W₂)
+    (h₃ : Pipeline.EigBasis (Pipeline.sumruleProj (A * W₂) (O1.sumRuleO1 N w) 1) W₃)
+    (hPs : Pᵀ = P) (hPi : P * P = P) (x : Fin N × Fin 3 → K) :
+    (∃ c : k₃ → K, x = (A * W₂ * W₃) *ᵥ c) ↔
+      ((∃ y : k₁ → K, x = A *ᵥ y) ∧ P *ᵥ x = x ∧ ∀ a : Fin 3, ∑ i : Fin N, x (i, a) = 0) := by
+  rw [Pipeline.pipeline_range A P (O1.sumRuleO1 N w) 1 W₂ W₃ hA h₂ h₃ hPs hPi one_pos x,
+    O1.sumRuleO1_kernel N w hw x]
+
+end FirstOrder
 
 end Symfc.C03
